@@ -73,6 +73,9 @@ func Unhex(s string) []byte {
 	if s == "-" {
 		return []byte{}
 	}
+	if s == "nil" {
+		return nil // a nil slice argument: for the API the same as an empty one
+	}
 	b, err := hex.DecodeString(s)
 	if err != nil {
 		panic("bad hex " + s)
@@ -622,7 +625,18 @@ func (im *Impl) Exec(line string) (out []string) {
 		if it == nil {
 			return []string{"iternext noiter"}
 		}
-		k, v, err := it.Next()
+		var k, v []byte
+		var err error
+		var pan interface{}
+		func() {
+			defer func() { pan = recover() }()
+			k, v, err = it.Next()
+		}()
+		if pan != nil {
+			// the iterator's own mutex may still be held by the panicking call: drop the iterator
+			delete(im.iters, f[1])
+			return []string{"iternext panic " + strings.ReplaceAll(fmt.Sprint(pan), " ", "_")}
+		}
 		if err == pogreb.ErrIterationDone {
 			return []string{"iternext done"}
 		}
